@@ -126,6 +126,7 @@ def check_known(prop_id):
     lines = []
     stale = []
     regressions = []
+    todo = []
     for e in load_known():
         if prop_id not in e.get('properties', []):
             continue
@@ -134,8 +135,16 @@ def check_known(prop_id):
             wprop = json.load(f).get('property')
         if wprop != prop_id:
             continue
-        r = subprocess.run([sys.executable, '-m', 'verifsim.runner', prop_id, '--replay', w], env=dict(os.environ),
-                           cwd=VERIF, capture_output=True, text=True, timeout=300)
+        todo.append((e, w))
+
+    def replay(item):
+        return subprocess.run([sys.executable, '-m', 'verifsim.runner', prop_id, '--replay', item[1]],
+                              env=dict(os.environ), cwd=VERIF, capture_output=True, text=True, timeout=300)
+
+    from concurrent.futures import ThreadPoolExecutor
+    with ThreadPoolExecutor(max_workers=8) as pool:
+        outs = list(pool.map(replay, todo))
+    for (e, w), r in zip(todo, outs):
         if r.returncode not in (0, 1):
             raise RuntimeError(f'witness replay failed: {r.stdout}\n{r.stderr}')
         if e.get('status') == 'finding':
